@@ -511,7 +511,15 @@ struct GramEngine {
     // the tree must survive the grammar
     vy_free(y);
     if (o.root == NULL) { if (am == 0 && g_trk.live() != 0) V("C13", "leak-without-tree", std::to_string(g_trk.live()) + " parse_alloc blocks live although no tree was returned"); return; }
-    if (am == 2) { vy_free_tree(o.root, NULL, NULL); return; }  // default allocator: LeakSanitizer / malloc counter decide
+    if (am == 2) {   // default allocator: the terminal callback must still be called once per TERM node
+      std::set<const yaep_tree_node *> terms2, seen2; std::vector<const yaep_tree_node *> st2{o.root};
+      while (!st2.empty()) { const yaep_tree_node *n = st2.back(); st2.pop_back(); if (!n || !seen2.insert(n).second) continue; if (n->type == YAEP_TERM) terms2.insert(n); else if (n->type == YAEP_ANODE) { for (yaep_tree_node **c = n->val.anode.children; *c; c++) st2.push_back(*c); } else if (n->type == YAEP_ALT) { st2.push_back(n->val.alt.node); st2.push_back(n->val.alt.next); } }
+      static long cb2; cb2 = 0;
+      vy_free_tree(o.root, NULL, [](struct yaep_term *) { cb2++; });
+      rep.add("c13_default_allocator_frees");
+      if (cb2 != (long) terms2.size()) V("C13", "termcb-count", "default allocator: terminal callback called " + std::to_string(cb2) + " times for " + std::to_string(terms2.size()) + " TERM nodes");
+      return;
+    }
     DenRes d2 = denote(o.root, (int) w.size(), true);
     if (d2.trees != d.trees || !d2.shape.empty()) V("C13", "tree-changed-after-free-grammar", "tree differs after yaep_free_grammar" + (d2.shape.empty() ? std::string() : ": " + d2.shape[0]));
     if (am != 0) return;
